@@ -263,6 +263,11 @@ def check_cases(chk: Check, cases, fixed: bool):
             for f in fs['fields']:
                 chk.count(f'field:{f["shape"]}:{f["dtype"]}:{"req" if f["req"] else "opt"}')
         for t in c['trajs']:
+            for row in t['vals'].values():
+                for v in row:
+                    for a in ([v] if isinstance(v, dict) and 'a' in v else
+                              [x for x in v.values() if isinstance(x, dict) and 'a' in x] if isinstance(v, dict) else []):
+                        chk.count('array-memory-layout:' + U.memory_layout(a['a'], t['n']))
             chk.count('length:' + ('0' if t['n'] == 0 else '1' if t['n'] == 1 else '2-20' if t['n'] <= 20 else '21-300'))
         if gaps:
             chk.count('species:gaps-or-differing-subsets')
@@ -433,7 +438,7 @@ def two_open_stores(chk: Check):
             setattr(t, nm, v)
         pool = pools[tag] if k % 2 == 0 else pools[tag][:1]
         setattr(t, fn[0], SpeciesValues({s: float(k) + 0.5 + i for i, s in enumerate(pool)}))
-        setattr(t, fn[1], SpeciesValues({s: U.make_array(7 * k + i, n, 'int16') for i, s in enumerate(pool)}))
+        setattr(t, fn[1], SpeciesValues({s: U.handed_array(7 * k + i, n, 'int16') for i, s in enumerate(pool)}))
         setattr(t, fn[2], None if k == 1 else ThrustModeValues(1.0 + k, 2.0, 3.0, 4.5))
         setattr(t, fn[3], SpeciesValues({s: ThrustModeValues(*[np.uint8(k + i + m) for m in range(4)])
                                          for i, s in enumerate(pool)}))
